@@ -119,6 +119,12 @@ def oracle(prop, graph, init, ops, obs):
                         yield ("C06 cancel-touched-outside-closure", {"step": i, "root": root, "touched": extra})
                     if sorted(o["ret"]) != sorted(k for k in range(len(cst)) if cst[k] == "CANCELLED" and pst[k] != "CANCELLED"):
                         yield ("C06 cancel-return-list-differs-from-cancelled-set", {"step": i, "root": root})
+        if prop == "C08" and name == "graph_status" and o["out"] == "ok" and isinstance(o["ret"], dict):
+            # what the TASK_GRAPH_RELEASE / TASK_GRAPH_FINISHED / MISSED_TASK_GRAPH_DEADLINE rows print about a task
+            # graph: its deadline is the latest deadline of ALL its tasks (a graph is late when any task is)
+            want = max((t[3] for t in cur), default=None)
+            if want is not None and o["ret"]["deadline"] != want:
+                yield ("C08 task-graph-deadline-differs-from-the-latest-task-deadline", {"step": i, "reported": o["ret"]["deadline"], "task_deadlines": [t[3] for t in cur]})
         if prop == "C07" and name == "notify" and o["out"] == "ok":
             n = op["n"]
             kids = graph["children"][n]
